@@ -34,6 +34,8 @@ type conn struct {
 	closed   int32
 	onClose  func(net.Conn)
 	once     sync.Once
+	// afterExit, set by the receive loop, runs when the connection has left the pool
+	afterExit func()
 }
 
 func dial(ctx context.Context) (net.Conn, error) {
@@ -202,18 +204,21 @@ func (c *conn) receive() (err error) {
 		if string(body) == core.RequestEntityTooLarge {
 			e = core.ErrRequestEntityTooLarge
 		}
+		// the server ends the connection after an error frame (after a refusal it has not even
+		// read the request): the connection leaves the pool now, so that the next call does
+		// not go into it - and the call the frame names is answered when it has left (see
+		// Receive): its caller's next call would otherwise still find it there
 		if resultChan, loaded := c.loadAndDelete(index); loaded {
-			resultChan <- data{
-				Index: index,
-				Error: e,
+			c.afterExit = func() {
+				resultChan <- data{
+					Index: index,
+					Error: e,
+				}
 			}
-			// the server ends the connection after an error frame (after a refusal it has
-			// not even read the request): the connection leaves the pool now, so that the
-			// next call does not go into it
-			return errRefusedConnection
 		}
-		// no call is pending under that identifier: the frame can not be attributed
-		return e
+		// (a frame for a call that is not pending any more concerns nobody: the calls that are
+		// pending fail with the end of the connection, not with that call's error)
+		return errRefusedConnection
 	}
 	if resultChan, loaded := c.loadAndDelete(index); loaded {
 		resultChan <- data{
@@ -233,6 +238,9 @@ func (c *conn) Receive(ctx context.Context, onExit func()) {
 			err = core.NewPanicError(e)
 		}
 		c.Exit(onExit, err)
+		if c.afterExit != nil {
+			c.afterExit()
+		}
 	}()
 	for {
 		select {
